@@ -46,6 +46,9 @@ type kase struct {
 	Prefix []string `json:"stdout_prefix"`
 	Marker string   `json:"marker,omitempty"`
 	Depth  int      `json:"depth"`
+	// Placement: where the ending happens: "" / "main" = in the main function, "init" = in an
+	// init function, "global-init" = in the initialiser of a package-level variable (before main).
+	Placement string `json:"placement,omitempty"`
 }
 
 func genEnding(t *rapid.T) (ending, int) {
@@ -136,6 +139,27 @@ func genProgram(t *rapid.T) (kase, *mini.Unit) {
 	if wz {
 		o.Entry = "主控"
 	}
+	// the program may also end before main starts: in an init function or a global initialiser
+	placement := "main"
+	if e.Class != "compile" {
+		placement = rapid.SampledFrom([]string{"main", "main", "init", "global-init"}).Draw(t, "placement")
+	}
+	var trailer string
+	switch placement {
+	case "init":
+		o.Entry = "init"
+		trailer = "\nfunc main {\n\tprintln(\"@main\")\n}\n"
+		if wz {
+			o.Entry = "准备"
+			trailer = "\n函数·主控:\n\t输出(\"@main\")\n完毕\n"
+		}
+	case "global-init":
+		o.Entry = "entryE"
+		trailer = "\nglobal gInitE: i32 = runInitE()\n\nfunc runInitE() => i32 {\n\tentryE()\n\treturn 7\n}\n\nfunc main {\n\tprintln(\"@main\")\n}\n"
+		if wz {
+			trailer = "\n全局·gInitE: 普整型 = runInitE()\n\n函数·runInitE() => 普整型:\n\tentryE()\n\t返回 7\n完毕\n\n函数·主控:\n\t输出(\"@main\")\n完毕\n"
+		}
+	}
 	u := mini.Gen(t, o)
 	var head []string
 	switch rapid.IntRange(0, 2).Draw(t, "header") {
@@ -168,7 +192,7 @@ func genProgram(t *rapid.T) (kase, *mini.Unit) {
 	if len(head) > 0 {
 		src += "\n"
 	}
-	src += body
+	src += body + trailer
 	name := rapid.SampledFrom([]string{"p", "main", "prog_1", "hello"}).Draw(t, "fname")
 	if wz {
 		name += ".wz"
@@ -177,6 +201,12 @@ func genProgram(t *rapid.T) (kase, *mini.Unit) {
 	}
 	k := kase{Name: name, Src: src, Abs: rapid.Bool().Draw(t, "abs"), Ending: e.Kind, Class: e.Class, Want: want,
 		Prefix: u.Out, Marker: e.Marker, Depth: u.Depth}
+	if placement != "main" {
+		k.Placement = placement
+		if e.Class == "normal" {
+			k.Prefix = append(append([]string{}, u.Out...), "@main") // initialisation completes, then main runs
+		}
+	}
 	if e.Class == "compile" {
 		k.Prefix = nil
 	}
@@ -276,6 +306,15 @@ func verdict(k kase, r runResult) (key, what, skip string) {
 		if r.Status != 0 && k.Ending != "compile-wat" && !looksLikeCompileFailure(r.Stdout+r.Stderr) {
 			return "", "", "generator: expected a compile diagnostic, got: " + tail(r.Stdout, 300)
 		}
+	} else if k.Placement != "" && k.Placement != "main" && k.Class != "normal" {
+		// Output printed before a termination during initialisation is not delivered by
+		// `wa run` (observed on the unchanged tree; the property speaks of the status only),
+		// so the modelled prefix cannot be used to confirm the path taken.
+		if looksLikeCompileFailure(r.Stdout + r.Stderr) {
+			return "", "", "generator: program does not compile: " + tail(r.Stdout+r.Stderr, 400)
+		}
+		// (that the site is reached is the generator's guarantee, confirmed by the prefix
+		// check on every main-placed case, which uses the same nest generator)
 	} else {
 		if looksLikeCompileFailure(strings.TrimPrefix(r.Stdout, prefix)) {
 			return "", "", "generator: program does not compile: " + tail(r.Stdout, 400)
@@ -321,7 +360,7 @@ func depthClass(d int) string {
 
 func TestRunExitStatus(t *testing.T) {
 	s := core.NewStats(prop, "RunExitStatus")
-	s.Rule("rapid: single-file program (.wa or .wz, drawn) whose entry function reaches, through a drawn nest (depth 0..4) of blocks/ifs/loops/switches/closures/helper calls/method calls/deferred closures with printing statements before it, one site of a drawn ending kind (normal return; exit function with status 0..255; panic; runtime-detected nil dereference / nil function call; wasm trap by integer division or remainder by zero (i32 and i64), out-of-bounds memory access, stack exhaustion; compile error by type error, syntax error, undefined name, or a .wat file that does not assemble); the real `wa` binary is run as `wa run <file>` (relative or absolute path) and the oracle compares the process exit status with: 0 for normal return, n for exit(n), non-zero otherwise; non-trivial = ending is not normal and at least one line was printed before it")
+	s.Rule("rapid: single-file program (.wa or .wz, drawn) whose entry function reaches, through a drawn nest (depth 0..4) of blocks/ifs/loops/switches/closures/helper calls/method calls/deferred closures with printing statements before it, one site of a drawn ending kind (normal return; exit function with status 0..255; panic; runtime-detected nil dereference / nil function call; wasm trap by integer division or remainder by zero (i32 and i64), out-of-bounds memory access, stack exhaustion; compile error by type error, syntax error, undefined name, or a .wat file that does not assemble); the real `wa` binary is run as `wa run <file>` (relative or absolute path); the ending is reached from main, from an init function or from the initialiser of a package-level variable (drawn); the oracle compares the process exit status with: 0 for normal return, n for exit(n), non-zero otherwise; non-trivial = ending is not normal and at least one line was printed before it")
 	s.Assume("the generator's tiny interpreter predicts the lines printed before the ending; a run whose stdout does not start with them (or that fails to compile when it should not) is counted as generator/model rejection, never as a violation")
 	var rejected, unusable int64
 	s.Check(t, func(t *rapid.T, c *core.Case) {
@@ -352,6 +391,11 @@ func TestRunExitStatus(t *testing.T) {
 			c.Class("syntax/wa")
 		}
 		c.Class(depthClass(k.Depth))
+		if k.Placement != "" {
+			c.Class("placement/" + k.Placement)
+		} else {
+			c.Class("placement/main")
+		}
 		if u != nil {
 			for _, w := range u.Wrappers {
 				c.Class("wrapper/" + w)
